@@ -54,7 +54,7 @@ def check(ctx):
         crcsp = [b for b in range(256) if gc.crc8([b]) in sp]
         alpha = sp + crcsp + [0, 97]
         lines.append("R %s 8" % name)
-        maxlen = 3
+        maxlen = 4 if ctx.thorough and name != "legacy" else 3
         for n in range(0, maxlen + 1):
             for p in itertools.product(alpha, repeat=n):
                 p = list(p)
@@ -73,7 +73,7 @@ def check(ctx):
             for part in partitions(rng, p, False):
                 lines += ["Enc iov %s" % part, "Enc vec %s" % part]
         # random payloads of all lengths
-        for i in range(30000 if ctx.thorough else 300):
+        for i in range(200000 if ctx.thorough else 300):
             p = gc.rand_payload(rng, name, rng.choice([0, 1, 2, 3, 7, 8, 31, 64, 300]))
             if name == "legacy":
                 lines.append("Enc plain %s" % gc.fmt(p))
